@@ -18,8 +18,9 @@ mod common;
 use std::collections::{HashMap, HashSet};
 use std::io::{BufRead, BufReader};
 use std::panic::{AssertUnwindSafe, catch_unwind};
-use std::sync::atomic::{AtomicU64, Ordering};
+use std::sync::atomic::{AtomicBool, AtomicI32, AtomicU64, AtomicUsize, Ordering};
 use std::sync::{Arc, Mutex};
+use std::time::{Duration, Instant};
 
 use common::*;
 use serde_json::{Value, json};
@@ -30,11 +31,59 @@ struct Outcome {
     violation: Option<Value>,
 }
 
+/// What a worker thread is doing, for the watchdog (a hang of the code under test is a verdict about the
+/// step being executed; a hang of the harness itself is a tool error; neither may strand the process).
+#[derive(Default)]
+struct Slot {
+    tid: AtomicI32,
+    busy: AtomicBool,
+    /// bumped before every step / table row
+    progress: AtomicU64,
+    /// the thread is inside a call into sozu
+    in_sozu: AtomicBool,
+    /// behaviours: index of the step; tables: index of the row inside `table`
+    step: AtomicUsize,
+    /// 0 behaviour, 1 write, 2 writable, 3 readable, 4 readmsg
+    table: AtomicUsize,
+    item: Mutex<Option<(usize, Arc<Value>)>>,
+}
+
+const TABLES: [&str; 5] = ["", "write", "writable", "readable", "readmsg"];
+
+impl Slot {
+    fn at(&self, table: usize, step: usize) {
+        self.table.store(table, Ordering::SeqCst);
+        self.step.store(step, Ordering::SeqCst);
+        self.in_sozu.store(false, Ordering::SeqCst);
+        self.progress.fetch_add(1, Ordering::SeqCst);
+    }
+    /// run a call into the code under test, marked for the watchdog
+    fn sozu<T>(&self, f: impl FnOnce() -> T) -> T {
+        self.in_sozu.store(true, Ordering::SeqCst);
+        let r = f();
+        self.in_sozu.store(false, Ordering::SeqCst);
+        r
+    }
+}
+
+/// The projection of the rig; a panic while reading the state of the code under test (position/end beyond
+/// the capacity: `available_space()` underflows, `data()` slices out of range) is data about the last step.
+fn project_guarded(rig: &Rig) -> Result<Value, String> {
+    catch_unwind(AssertUnwindSafe(|| {
+        let v = rig.project();
+        // the slices the next call of the owner would take
+        let _ = rig.rx.front_buf.data().len();
+        let _ = rig.tx.back_buf.data().len();
+        v
+    }))
+    .map_err(vh::util::panic_message)
+}
+
 fn u(v: &Value) -> usize {
     v.as_u64().unwrap_or(0) as usize
 }
 
-fn run_behaviour(b: &Value, classes: &mut HashSet<String>, transitions: &mut HashSet<u64>) -> Outcome {
+fn run_behaviour(b: &Value, classes: &mut HashSet<String>, transitions: &mut HashSet<u64>, slot: &Slot) -> Outcome {
     let d = u(&b["d"]);
     let init = b["init"].as_u64().unwrap_or(0);
     let max = b["max"].as_u64().unwrap_or(0);
@@ -55,6 +104,7 @@ fn run_behaviour(b: &Value, classes: &mut HashSet<String>, transitions: &mut Has
     let mut sent: HashMap<u64, (usize, String)> = HashMap::new();
     let mut prev = rig.project();
     for (i, st) in steps.iter().enumerate() {
+        slot.at(0, i);
         let op = st["op"].as_str().unwrap_or("");
         let want_res = st["res"].as_str().unwrap_or("").to_string();
         let mut got_res = String::new();
@@ -65,7 +115,7 @@ fn run_behaviour(b: &Value, classes: &mut HashSet<String>, transitions: &mut Has
                     let id = st["id"].as_u64().unwrap_or(0);
                     let len = u(&st["len"]);
                     let msg = make_msg(id, len - D).ok_or_else(|| format!("no message with a {len}-byte frame"))?;
-                    match rig.tx.write_message(&msg) {
+                    match slot.sozu(|| rig.tx.write_message(&msg)) {
                         Ok(()) => {
                             got_res = "ok".into();
                             rig.tx_expect.extend(len.to_le_bytes());
@@ -75,12 +125,12 @@ fn run_behaviour(b: &Value, classes: &mut HashSet<String>, transitions: &mut Has
                         Err(e) => got_res = error_name(&e),
                     }
                 }
-                "TxEvents" => rig.tx.handle_events(Ready::WRITABLE),
+                "TxEvents" => slot.sozu(|| rig.tx.handle_events(Ready::WRITABLE)),
                 "Writable" => {
                     let chunks: Vec<usize> = st["chunks"].as_array().map(|a| a.iter().map(u).collect()).unwrap_or_default();
                     let data0 = rig.tx.back_buf.available_data();
                     shim_arm(rig.tx_fd, Some(chunks.clone()));
-                    let r = rig.tx.writable();
+                    let r = slot.sozu(|| rig.tx.writable());
                     let calls = shim_disarm();
                     match r {
                         Ok(n) => {
@@ -120,8 +170,8 @@ fn run_behaviour(b: &Value, classes: &mut HashSet<String>, transitions: &mut Has
                     rig.wire.extend(bytes);
                     sent.insert(id, (u(&st["len"]), kind.to_string()));
                 }
-                "RxEvents" => rig.rx.handle_events(Ready::READABLE),
-                "Readable" => match rig.rx.readable() {
+                "RxEvents" => slot.sozu(|| rig.rx.handle_events(Ready::READABLE)),
+                "Readable" => match slot.sozu(|| rig.rx.readable()) {
                     Ok(n) => {
                         got_res = "ok".into();
                         rig.sock -= n.min(rig.sock);
@@ -131,7 +181,7 @@ fn run_behaviour(b: &Value, classes: &mut HashSet<String>, transitions: &mut Has
                     }
                     Err(e) => got_res = error_name(&e),
                 },
-                "ReadMessage" => match rig.rx.read_message() {
+                "ReadMessage" => match slot.sozu(|| rig.rx.read_message()) {
                     Ok(m) => {
                         got_res = "ok".into();
                         let id = st["id"].as_u64().unwrap_or(0);
@@ -153,12 +203,13 @@ fn run_behaviour(b: &Value, classes: &mut HashSet<String>, transitions: &mut Has
             }
             Ok(())
         }));
+        slot.in_sozu.store(false, Ordering::SeqCst);
         out.steps += 1;
         let mut problems: Vec<(String, String)> = Vec::new();
         match r {
             Err(p) => {
                 shim_disarm();
-                problems.push(("panic".into(), vh::util::panic_message(p)));
+                problems.push((format!("panic:{op}"), format!("{op} panicked: {}", vh::util::panic_message(p))));
             }
             Ok(Err(e)) => {
                 let class = if e.starts_with("stream:") { "stream" } else { "harness" };
@@ -174,7 +225,18 @@ fn run_behaviour(b: &Value, classes: &mut HashSet<String>, transitions: &mut Has
                 }
             }
         }
-        let now = if problems.iter().any(|(c, _)| c == "panic") { Value::Null } else { rig.project() };
+        let now = if problems.iter().any(|(c, _)| c.starts_with("panic")) {
+            Value::Null
+        } else {
+            match project_guarded(&rig) {
+                Ok(v) => v,
+                Err(m) => {
+                    // the call returned, but it left a state that cannot even be read
+                    problems.insert(0, (format!("panic:{op}"), format!("after {op} the buffers cannot be read any more (spec says {}): {m}", st["st"])));
+                    Value::Null
+                }
+            }
+        };
         if !now.is_null() && now != st["st"] {
             problems.push(("projection".into(), format!("after {op}: real {now} spec {}", st["st"])));
         }
@@ -245,7 +307,7 @@ fn drain_fd(fd: i32) -> Vec<u8> {
     out
 }
 
-fn run_table(t: &Value, transitions: &mut u64) -> Option<Value> {
+fn run_table(t: &Value, transitions: &mut u64, slot: &Slot) -> Option<Value> {
     let init = t["init"].as_u64().unwrap_or(0);
     let max = t["max"].as_u64().unwrap_or(0);
     let (pos, end, cap) = (u(&t["buf"][0]), u(&t["buf"][1]), u(&t["buf"][2]));
@@ -260,7 +322,8 @@ fn run_table(t: &Value, transitions: &mut u64) -> Option<Value> {
     };
     let proj = |b: &Buffer| (b.available_data(), b.available_space(), b.capacity());
     // ---- write_message
-    for row in t["write"].as_array().into_iter().flatten() {
+    for (ri, row) in t["write"].as_array().into_iter().flatten().enumerate() {
+        slot.at(1, ri);
         *transitions += 1;
         let len = u(&row[0]);
         let content = pattern(data, 0x11);
@@ -269,7 +332,7 @@ fn run_table(t: &Value, transitions: &mut u64) -> Option<Value> {
             rig.tx.interest = Ready::READABLE;
             rig.tx.readiness = Ready::EMPTY;
             let msg = make_msg(5, len - D).ok_or(("harness".to_string(), format!("no message of {len} bytes")))?;
-            let ok = rig.tx.write_message(&msg).is_ok();
+            let ok = slot.sozu(|| rig.tx.write_message(&msg)).is_ok();
             let got = (ok as usize, proj(&rig.tx.back_buf));
             let want = (u(&row[1]), (u(&row[2]), u(&row[3]), u(&row[4])));
             if got != want {
@@ -289,13 +352,14 @@ fn run_table(t: &Value, transitions: &mut u64) -> Option<Value> {
             Ok(())
         }));
         match r {
-            Err(p) => return fail("write", row, "panic", vh::util::panic_message(p)),
+            Err(p) => return fail("write", row, "panic:write", vh::util::panic_message(p)),
             Ok(Err((c, m))) => return fail("write", row, &c, m),
             Ok(Ok(())) => {}
         }
     }
     // ---- writable() with one partial write of k bytes
-    for row in t["writable"].as_array().into_iter().flatten() {
+    for (ri, row) in t["writable"].as_array().into_iter().flatten().enumerate() {
+        slot.at(2, ri);
         *transitions += 1;
         let k = u(&row[0]);
         let content = pattern(data, 0x22);
@@ -304,7 +368,7 @@ fn run_table(t: &Value, transitions: &mut u64) -> Option<Value> {
             rig.tx.interest = Ready::READABLE | Ready::WRITABLE;
             rig.tx.readiness = Ready::WRITABLE;
             shim_arm(rig.tx_fd, Some(if k == 0 { vec![] } else { vec![k] }));
-            let res = rig.tx.writable();
+            let res = slot.sozu(|| rig.tx.writable());
             shim_disarm();
             let n = res.map_err(|e| ("result".to_string(), format!("writable() failed: {e}")))?;
             let b = |x: bool| x as usize;
@@ -325,14 +389,15 @@ fn run_table(t: &Value, transitions: &mut u64) -> Option<Value> {
         match r {
             Err(p) => {
                 shim_disarm();
-                return fail("writable", row, "panic", vh::util::panic_message(p));
+                return fail("writable", row, "panic:writable", vh::util::panic_message(p));
             }
             Ok(Err((c, m))) => return fail("writable", row, &c, m),
             Ok(Ok(())) => {}
         }
     }
     // ---- readable() with n bytes in the socket
-    for row in t["readable"].as_array().into_iter().flatten() {
+    for (ri, row) in t["readable"].as_array().into_iter().flatten().enumerate() {
+        slot.at(3, ri);
         *transitions += 1;
         let n = u(&row[0]);
         let content = pattern(data, 0x33);
@@ -347,7 +412,7 @@ fn run_table(t: &Value, transitions: &mut u64) -> Option<Value> {
             if moved != n {
                 return Err(("harness".into(), format!("could only put {moved} of {n} bytes in the socket")));
             }
-            let res = rig.rx.readable().map_err(|e| ("result".to_string(), format!("readable() failed: {e}")))?;
+            let res = slot.sozu(|| rig.rx.readable()).map_err(|e| ("result".to_string(), format!("readable() failed: {e}")))?;
             let b = |x: bool| x as usize;
             let left = rig.sock_inq();
             let got = (proj(&rig.rx.front_buf), left, b(rig.rx.interest.is_readable()), b(rig.rx.readiness.is_readable()), res);
@@ -364,7 +429,7 @@ fn run_table(t: &Value, transitions: &mut u64) -> Option<Value> {
             Ok(())
         }));
         match r {
-            Err(p) => return fail("readable", row, "panic", vh::util::panic_message(p)),
+            Err(p) => return fail("readable", row, "panic:readable", vh::util::panic_message(p)),
             Ok(Err((c, m))) => {
                 drain_fd(rig.rx_fd);
                 return fail("readable", row, &c, m);
@@ -373,7 +438,8 @@ fn run_table(t: &Value, transitions: &mut u64) -> Option<Value> {
         }
     }
     // ---- read_message() with the given frame at the head of the stream
-    for row in t["readmsg"].as_array().into_iter().flatten() {
+    for (ri, row) in t["readmsg"].as_array().into_iter().flatten().enumerate() {
+        slot.at(4, ri);
         *transitions += 1;
         let (len, decl, kind) = (u(&row[0]), u(&row[1]), row[2].as_str().unwrap_or(""));
         let want_res = row[3].as_str().unwrap_or("");
@@ -389,7 +455,7 @@ fn run_table(t: &Value, transitions: &mut u64) -> Option<Value> {
             rig.rx.front_buf = make_buffer(pos, end, cap, content).map_err(|e| ("harness".to_string(), e))?;
             rig.rx.interest = Ready::EMPTY;
             rig.rx.readiness = Ready::EMPTY;
-            let res = rig.rx.read_message();
+            let res = slot.sozu(|| rig.rx.read_message());
             let got_res = match &res {
                 Ok(_) => "ok".to_string(),
                 Err(e) => error_name(e),
@@ -411,12 +477,140 @@ fn run_table(t: &Value, transitions: &mut u64) -> Option<Value> {
             Ok(())
         }));
         match r {
-            Err(p) => return fail("readmsg", row, "panic", vh::util::panic_message(p)),
+            Err(p) => return fail("readmsg", row, "panic:readmsg", vh::util::panic_message(p)),
             Ok(Err((c, m))) => return fail("readmsg", row, &c, m),
             Ok(Ok(())) => {}
         }
     }
     None
+}
+
+/// (utime + stime in clock ticks, state letter) of a thread of this process
+fn thread_stat(tid: i32) -> Option<(u64, char)> {
+    let s = std::fs::read_to_string(format!("/proc/self/task/{tid}/stat")).ok()?;
+    let rest = &s[s.rfind(')')? + 2..];
+    let f: Vec<&str> = rest.split_whitespace().collect();
+    // rest starts at field 3 (state); utime = field 14, stime = field 15
+    let state = f.first()?.chars().next()?;
+    let ut: u64 = f.get(11)?.parse().ok()?;
+    let st: u64 = f.get(12)?.parse().ok()?;
+    Some((ut + st, state))
+}
+
+fn env_secs(name: &str, default: f64) -> f64 {
+    std::env::var(name).ok().and_then(|v| v.parse().ok()).unwrap_or(default)
+}
+
+struct Shared {
+    total_steps: AtomicU64,
+    behaviours: AtomicU64,
+    tables: AtomicU64,
+    table_rows: AtomicU64,
+    violations: Mutex<Vec<Value>>,
+    classes: Mutex<HashSet<String>>,
+    transitions: Mutex<HashSet<u64>>,
+    first_sample: Mutex<Option<Value>>,
+    printed: AtomicBool,
+}
+
+impl Shared {
+    /// Print the violations and the summary exactly once (normal end, or the watchdog's early end).
+    fn print(&self, verbose: bool, aborted: Option<&str>) {
+        if self.printed.swap(true, Ordering::SeqCst) {
+            return;
+        }
+        let vs = self.violations.lock().unwrap_or_else(|e| e.into_inner());
+        for v in vs.iter() {
+            vh::util::emit(v);
+            if verbose {
+                eprintln!("{}", serde_json::to_string_pretty(&v["problems"]).unwrap_or_default());
+            }
+        }
+        let mut cl: Vec<String> = self.classes.lock().unwrap_or_else(|e| e.into_inner()).iter().cloned().collect();
+        cl.sort();
+        vh::util::emit(&json!({
+            "kind": "summary",
+            "behaviours": self.behaviours.load(Ordering::SeqCst),
+            "steps": self.total_steps.load(Ordering::SeqCst),
+            "violations": vs.len(),
+            "step_classes": cl,
+            "distinct_transitions": self.transitions.lock().unwrap_or_else(|e| e.into_inner()).len(),
+            "tables": self.tables.load(Ordering::SeqCst),
+            "table_rows": self.table_rows.load(Ordering::SeqCst),
+            "first_behaviour": self.first_sample.lock().unwrap_or_else(|e| e.into_inner()).clone(),
+            "aborted": aborted,
+        }));
+        use std::io::Write;
+        let _ = std::io::stdout().flush();
+    }
+    fn push(&self, v: Value) {
+        let mut g = self.violations.lock().unwrap_or_else(|e| e.into_inner());
+        if g.len() < 200 {
+            g.push(v);
+        }
+    }
+}
+
+/// One line of stdin (a behaviour or a transition table) executed on the real code.
+fn run_item(k: usize, b: Arc<Value>, sh: &Shared, slot: &Slot, my_classes: &mut HashSet<String>, my_trans: &mut HashSet<u64>) {
+    if b.get("buf").is_some() {
+        let mut n = 0u64;
+        let v = run_table(&b, &mut n, slot);
+        sh.tables.fetch_add(1, Ordering::SeqCst);
+        sh.table_rows.fetch_add(n, Ordering::SeqCst);
+        if let Some(mut v) = v {
+            v["kind"] = json!("violation");
+            v["op"] = json!({"op": v["table"], "res": v["class"]});
+            v["behaviour"] = (*b).clone();
+            sh.push(v);
+        }
+        return;
+    }
+    if b.get("steps").is_none() {
+        return;
+    }
+    if k == 0 {
+        *sh.first_sample.lock().unwrap_or_else(|e| e.into_inner()) = Some((*b).clone());
+    }
+    let o = run_behaviour(&b, my_classes, my_trans, slot);
+    sh.behaviours.fetch_add(1, Ordering::SeqCst);
+    sh.total_steps.fetch_add(o.steps, Ordering::SeqCst);
+    if let Some(mut v) = o.violation {
+        v["kind"] = json!("violation");
+        v["behaviour_index"] = json!(k);
+        // keep the replay small: the behaviour up to the failing step
+        let upto = v["step"].as_u64().unwrap_or(0) as usize;
+        let mut bb = (*b).clone();
+        if let Some(a) = bb["steps"].as_array_mut() {
+            a.truncate(upto.max(1));
+        }
+        v["behaviour"] = bb;
+        sh.push(v);
+    }
+}
+
+/// The violation the watchdog reports for a worker stuck inside a call into sozu.
+fn hang_violation(slot: &Slot, how: &str) -> Value {
+    let item = slot.item.lock().unwrap_or_else(|e| e.into_inner()).clone();
+    let (k, b) = item.unwrap_or((0, Arc::new(Value::Null)));
+    let table = slot.table.load(Ordering::SeqCst);
+    let step = slot.step.load(Ordering::SeqCst);
+    if table == 0 {
+        let st = b["steps"][step].clone();
+        let op = st["op"].as_str().unwrap_or("?").to_string();
+        let mut bb = (*b).clone();
+        if let Some(a) = bb["steps"].as_array_mut() {
+            a.truncate(step + 1);
+        }
+        json!({"kind": "violation", "class": format!("hang:{op}"), "step": step + 1, "op": st, "behaviour_index": k, "behaviour": bb,
+               "problems": [format!("[hang:{op}] {op} (step {}) never returned ({how}): the channel is wedged inside the call", step + 1)]})
+    } else {
+        let t = TABLES[table.min(4)];
+        let row = b[t][step].clone();
+        json!({"kind": "violation", "class": format!("hang:{t}"), "table": t, "buf": b["buf"], "init": b["init"], "max": b["max"], "row": row,
+               "op": {"op": t, "res": format!("hang:{t}")}, "behaviour": (*b).clone(),
+               "problems": [format!("[hang:{t}] buffer {} {t} row {row}: the call never returned ({how})", b["buf"])]})
+    }
 }
 
 fn main() {
@@ -427,7 +621,7 @@ fn main() {
     while i < args.len() {
         match args[i].as_str() {
             "--threads" => {
-                threads = args[i + 1].parse().unwrap_or(8);
+                threads = args.get(i + 1).and_then(|v| v.parse().ok()).unwrap_or(8);
                 i += 1;
             }
             "--verbose" => verbose = true,
@@ -435,81 +629,136 @@ fn main() {
         }
         i += 1;
     }
+    let threads = threads.max(1);
     vh::util::quiet_panics();
     let sizes: Vec<usize> = (0..200).chain([127, 128, 129, 130, 131, 16383, 16384, 16390, 70000]).collect();
-    if let Err(e) = self_test(&sizes) {
-        eprintln!("replay_channel self-test failed: {e}");
-        std::process::exit(3);
+    match catch_unwind(|| self_test(&sizes)) {
+        Ok(Ok(())) => {}
+        Ok(Err(e)) => {
+            eprintln!("replay_channel self-test failed: {e}");
+            std::process::exit(3);
+        }
+        Err(p) => {
+            eprintln!("replay_channel self-test panicked: {}", vh::util::panic_message(p));
+            std::process::exit(3);
+        }
     }
     // stdin is streamed to the workers (TLC can pipe hundreds of MB of behaviours without a file in between)
     let (txq, rxq) = std::sync::mpsc::sync_channel::<(usize, String)>(256);
     let rxq = Arc::new(Mutex::new(rxq));
-    let total_steps = Arc::new(AtomicU64::new(0));
-    let behaviours = Arc::new(AtomicU64::new(0));
-    let tables = Arc::new(AtomicU64::new(0));
-    let table_rows = Arc::new(AtomicU64::new(0));
-    let violations = Arc::new(Mutex::new(Vec::<Value>::new()));
-    let classes = Arc::new(Mutex::new(HashSet::<String>::new()));
-    let transitions = Arc::new(Mutex::new(HashSet::<u64>::new()));
-    let first_sample = Arc::new(Mutex::new(None::<Value>));
+    let sh = Arc::new(Shared {
+        total_steps: AtomicU64::new(0),
+        behaviours: AtomicU64::new(0),
+        tables: AtomicU64::new(0),
+        table_rows: AtomicU64::new(0),
+        violations: Mutex::new(Vec::new()),
+        classes: Mutex::new(HashSet::new()),
+        transitions: Mutex::new(HashSet::new()),
+        first_sample: Mutex::new(None),
+        printed: AtomicBool::new(false),
+    });
+    let slots: Arc<Vec<Slot>> = Arc::new((0..threads).map(|_| Slot::default()).collect());
     let mut handles = Vec::new();
-    for _ in 0..threads.max(1) {
-        let (rxq, total_steps, behaviours, violations, classes, transitions) =
-            (rxq.clone(), total_steps.clone(), behaviours.clone(), violations.clone(), classes.clone(), transitions.clone());
-        let (tables, table_rows, first_sample) = (tables.clone(), table_rows.clone(), first_sample.clone());
+    for w in 0..threads {
+        let (rxq, sh, slots) = (rxq.clone(), sh.clone(), slots.clone());
         handles.push(std::thread::spawn(move || {
+            let slot = &slots[w];
+            slot.tid.store(unsafe { libc::syscall(libc::SYS_gettid) } as i32, Ordering::SeqCst);
             let mut my_classes = HashSet::new();
             let mut my_trans = HashSet::new();
             loop {
-                let item = { rxq.lock().unwrap().recv() };
+                // (a poisoned queue lock only means another worker died while waiting: keep consuming)
+                let item = { rxq.lock().unwrap_or_else(|e| e.into_inner()).recv() };
                 let Ok((k, line)) = item else { break };
                 let Ok(b) = serde_json::from_str::<Value>(&line) else { continue };
                 // a violation replay file wraps the behaviour
-                let b = if b.get("behaviour").is_some() { b["behaviour"].clone() } else { b };
-                if b.get("buf").is_some() {
-                    let mut n = 0u64;
-                    let v = run_table(&b, &mut n);
-                    tables.fetch_add(1, Ordering::SeqCst);
-                    table_rows.fetch_add(n, Ordering::SeqCst);
-                    if let Some(mut v) = v {
-                        v["kind"] = json!("violation");
-                        v["op"] = json!({"op": v["table"], "res": v["class"]});
-                        v["behaviour"] = b.clone();
-                        let mut g = violations.lock().unwrap();
-                        if g.len() < 200 {
-                            g.push(v);
+                let b = Arc::new(if b.get("behaviour").is_some() { b["behaviour"].clone() } else { b });
+                *slot.item.lock().unwrap_or_else(|e| e.into_inner()) = Some((k, b.clone()));
+                slot.at(0, 0);
+                slot.busy.store(true, Ordering::SeqCst);
+                // every call into sozu is guarded inside; whatever still unwinds up to here is a defect of the
+                // harness (class "harness" = tool error), and it must not kill the worker: the queue has to be drained
+                let r = catch_unwind(AssertUnwindSafe(|| run_item(k, b.clone(), &sh, slot, &mut my_classes, &mut my_trans)));
+                slot.busy.store(false, Ordering::SeqCst);
+                slot.in_sozu.store(false, Ordering::SeqCst);
+                if let Err(p) = r {
+                    shim_disarm();
+                    sh.push(json!({"kind": "violation", "class": "harness", "op": {"op": "harness", "res": "panic"}, "behaviour_index": k,
+                                   "problems": [format!("[harness] the replayer itself panicked outside a guarded call: {}", vh::util::panic_message(p))]}));
+                }
+            }
+            sh.classes.lock().unwrap_or_else(|e| e.into_inner()).extend(my_classes);
+            sh.transitions.lock().unwrap_or_else(|e| e.into_inner()).extend(my_trans);
+        }));
+    }
+    // only the workers hold the receiving end: if they were all gone, send() would fail instead of blocking for ever
+    drop(rxq);
+
+    // ---- watchdog: "no progress" becomes a verdict (hang of the code under test) or a tool error (harness stuck)
+    {
+        let (sh, slots) = (sh.clone(), slots.clone());
+        let spin_cpu = env_secs("VERIF_C11_SPIN_CPU_S", 10.0); // CPU seconds burnt inside ONE call (a step takes microseconds)
+        let block_wall = env_secs("VERIF_C11_BLOCK_S", 40.0); // seconds asleep inside ONE call of a non-blocking channel
+        let starve_wall = env_secs("VERIF_C11_STALL_S", 600.0); // no progress, neither spinning nor asleep: the machine
+        let harness_wall = env_secs("VERIF_C11_HARNESS_STALL_S", 180.0); // no progress outside the code under test
+        std::thread::spawn(move || {
+            let ticks = unsafe { libc::sysconf(libc::_SC_CLK_TCK) }.max(1) as f64;
+            struct Seen {
+                progress: u64,
+                since: Instant,
+                cpu0: u64,
+                asleep_since: Option<Instant>,
+            }
+            let mut seen: Vec<Option<Seen>> = (0..slots.len()).map(|_| None).collect();
+            loop {
+                std::thread::sleep(Duration::from_millis(500));
+                for (w, slot) in slots.iter().enumerate() {
+                    if !slot.busy.load(Ordering::SeqCst) {
+                        seen[w] = None;
+                        continue;
+                    }
+                    let p = slot.progress.load(Ordering::SeqCst);
+                    let tid = slot.tid.load(Ordering::SeqCst);
+                    let Some((cpu, state)) = thread_stat(tid) else { continue };
+                    match &mut seen[w] {
+                        Some(s) if s.progress == p => {
+                            let in_sozu = slot.in_sozu.load(Ordering::SeqCst);
+                            let stalled = s.since.elapsed().as_secs_f64();
+                            let burnt = (cpu - s.cpu0) as f64 / ticks;
+                            if state == 'S' || state == 'D' {
+                                s.asleep_since.get_or_insert_with(Instant::now);
+                            } else {
+                                s.asleep_since = None;
+                            }
+                            let asleep = s.asleep_since.map(|t| t.elapsed().as_secs_f64()).unwrap_or(0.0);
+                            // re-check that it is still the same step (the flags are read after the counters)
+                            if slot.progress.load(Ordering::SeqCst) != p {
+                                continue;
+                            }
+                            let verdict = if in_sozu && burnt >= spin_cpu {
+                                Some(format!("it burnt {burnt:.1} s of CPU in {stalled:.0} s without returning"))
+                            } else if in_sozu && asleep >= block_wall {
+                                Some(format!("blocked in the kernel for {asleep:.0} s on a non-blocking channel"))
+                            } else {
+                                None
+                            };
+                            if let Some(how) = verdict {
+                                sh.push(hang_violation(slot, &how));
+                                sh.print(false, Some("hang of the code under test"));
+                                std::process::exit(0);
+                            }
+                            if (!in_sozu && stalled >= harness_wall) || stalled >= starve_wall {
+                                eprintln!(
+                                    "replay_channel: worker {w} made no progress for {stalled:.0} s (in_sozu={in_sozu}, cpu {burnt:.1} s, state {state}): giving up (tool error)"
+                                );
+                                std::process::exit(4);
+                            }
                         }
-                    }
-                    continue;
-                }
-                if b.get("steps").is_none() {
-                    continue;
-                }
-                if k == 0 {
-                    *first_sample.lock().unwrap() = Some(b.clone());
-                }
-                let o = run_behaviour(&b, &mut my_classes, &mut my_trans);
-                behaviours.fetch_add(1, Ordering::SeqCst);
-                total_steps.fetch_add(o.steps, Ordering::SeqCst);
-                if let Some(mut v) = o.violation {
-                    v["kind"] = json!("violation");
-                    v["behaviour_index"] = json!(k);
-                    // keep the replay small: the behaviour up to the failing step
-                    let upto = v["step"].as_u64().unwrap_or(0) as usize;
-                    let mut bb = b.clone();
-                    if let Some(a) = bb["steps"].as_array_mut() {
-                        a.truncate(upto.max(1));
-                    }
-                    v["behaviour"] = bb;
-                    let mut g = violations.lock().unwrap();
-                    if g.len() < 200 {
-                        g.push(v);
+                        _ => seen[w] = Some(Seen { progress: p, since: Instant::now(), cpu0: cpu, asleep_since: None }),
                     }
                 }
             }
-            classes.lock().unwrap().extend(my_classes);
-            transitions.lock().unwrap().extend(my_trans);
-        }));
+        });
     }
     {
         let mut k = 0usize;
@@ -518,7 +767,8 @@ fn main() {
                 continue;
             }
             if txq.send((k, line)).is_err() {
-                break;
+                eprintln!("replay_channel: every worker is gone, {k} lines were handed out");
+                std::process::exit(4);
             }
             k += 1;
         }
@@ -527,24 +777,5 @@ fn main() {
     for h in handles {
         let _ = h.join();
     }
-    let vs = violations.lock().unwrap();
-    for v in vs.iter() {
-        vh::util::emit(v);
-        if verbose {
-            eprintln!("{}", serde_json::to_string_pretty(&v["problems"]).unwrap_or_default());
-        }
-    }
-    let mut cl: Vec<String> = classes.lock().unwrap().iter().cloned().collect();
-    cl.sort();
-    vh::util::emit(&json!({
-        "kind": "summary",
-        "behaviours": behaviours.load(Ordering::SeqCst),
-        "steps": total_steps.load(Ordering::SeqCst),
-        "violations": vs.len(),
-        "step_classes": cl,
-        "distinct_transitions": transitions.lock().unwrap().len(),
-        "tables": tables.load(Ordering::SeqCst),
-        "table_rows": table_rows.load(Ordering::SeqCst),
-        "first_behaviour": first_sample.lock().unwrap().clone(),
-    }));
+    sh.print(verbose, None);
 }
